@@ -48,11 +48,11 @@ def rev_plugin():
 
 # ---- request alphabet: (symbol, target kind) -> bytes, expectation
 
-CONN = {'none': b'', 'ka-lower': b'Connection: keep-alive\r\n', 'ka-title': b'Connection: Keep-Alive\r\n',
+CONN = {'none': b'', 'close-last': b'', 'http10-last': b'', 'ka-lower': b'Connection: keep-alive\r\n', 'ka-title': b'Connection: Keep-Alive\r\n',
         'ka-list': b'Connection: keep-alive, x-foo\r\nX-Foo: 1\r\n'}
 
 
-def mkreq(role, sym, i, conn='none'):
+def mkreq(role, sym, i, conn='none', last=False):
     """Returns (wire bytes, expected dict(origin, method, path, body))."""
     if role == 'forward':
         host = {'G': 'a', 'P': 'a', 'C': 'a', 'B': 'b', 'D': 'a'}[sym]
@@ -84,6 +84,10 @@ def mkreq(role, sym, i, conn='none'):
         raw = b'POST %s HTTP/1.1\r\n%sTransfer-Encoding: chunked\r\n\r\n3\r\n%s\r\n%x\r\n%s\r\n0\r\n\r\n' % (
             target, hosthdr, body[:3], len(body) - 3, body[3:])
         method = b'POST'
+    if last and conn == 'close-last':
+        raw = raw.replace(b'\r\n', b'\r\nConnection: close\r\n', 1)
+    if last and conn == 'http10-last':
+        raw = raw.replace(b' HTTP/1.1\r\n', b' HTTP/1.0\r\n', 1)
     return raw, {'origin': exp_origin, 'method': method, 'path': exp_path, 'body': body}
 
 
@@ -131,9 +135,9 @@ def scenarios(tier):
             fa, fo = ['--threadless', '--enable-reverse-proxy'], {'plugins': [rev_plugin()]}
             origins = {ADDR['u1']: origin('u1'), ADDR['u2']: origin('u2'), ADDR['u1b']: origin('u1b')}
         for seq, conn in [(sq, 'none') for sq in sequences(tier)] + \
-                [(sq, cn) for cn in ('ka-lower', 'ka-title') + (('ka-list',) if tier == 'thorough' else ())
+                [(sq, cn) for cn in ('ka-lower', 'ka-title', 'close-last', 'http10-last') + (('ka-list',) if tier == 'thorough' else ())
                  for sq in sequences(tier) if len(sq) == 2 or (len(sq) == 3 and tier == 'thorough')]:
-            built = [mkreq(role, s, i, conn) for i, s in enumerate(seq)]
+            built = [mkreq(role, s, i, conn, last=(i == len(seq) - 1)) for i, s in enumerate(seq)]
             reqs = [b[0] for b in built]
             exps = [b[1] for b in built]
             for cls, pieces, wait in packings(reqs, tier):
